@@ -30,7 +30,9 @@ CHECKS = {
              "T1-T3 (thorough T4,T7), objective x direction, fraction in {1,9/10,1/2,0}, pfba_factor in {None,1,11/10}, loopless on/off, "
              "reaction_list shapes: reported range is sound (no oracle point outside, proved for all bounds at once) and "
              "tight (recorded stub primal of the producing solve attains it), min<=max, index as requested, raises "
-             "exactly when no optimum exists, model unchanged.",
+             "exactly when no optimum exists, model unchanged. With a reaction in the list whose extreme is infinite (a cycle without "
+             "upper bounds, oracle: recession cone) the call may refuse or report the infinity on exactly that side; every other "
+             "number is still proved sound and tight for each position of that reaction in the list.",
         note="Outside: processes>1 (C14), fraction<1 with wrong-signed optimum (the property's own precondition). Loopless FVA: "
              "soundness/tightness of the ranges depend on which optimal vertex the solver returns and are evaluated on the GLPK "
              "replays only. " + NOTE_COMMON, ref="4/C05"),
@@ -198,7 +200,8 @@ CHECKS.update({
              "model is unchanged after every task, the caller's model is unchanged; also when the same model object was screened "
              "serially before with other bounds (nothing of an earlier call may survive in the process). find_blocked_reactions, "
              "find_essential_genes / find_essential_reactions and loopless FVA through the same pool return the serial run's sets "
-             "(loopless: the same rows).",
+             "(loopless: the same rows). FVA also with a reaction whose extreme is infinite in the list (whatever is answered must not "
+             "depend on the order).",
         note="NOT claimed: the OptGP sampling sentence (float numerics) and the operating system's real scheduling / pickling across "
              "processes - the pool is a stub implementing the documented multiprocessing.Pool contract. Bounded: 2 (thorough 3) workers, "
              "3-4 items. " + NOTE_COMMON, ref="4/C14"),
